@@ -1152,47 +1152,6 @@ theorem good_delNs {s : Sheet} {p : Cps} (h : Good s) : Good (delNs s p).1 := by
     | error e => exact h
     | ok s' => exact good_deleteRule h hd
 
-/-- the rule followed by `cleanPos` is where `cleanPos` says it is -/
-theorem cleanPos_get (items : Dict) (done rest : List Rule) (pos j : Nat) (r : Rule)
-    (h : (done ++ rest)[pos]? = some r) (hj : cleanPos items done rest pos = some j) :
-    (cleanGo items done rest).1[j]? = some r := by
-  induction rest generalizing done pos with
-  | nil =>
-    simp only [cleanPos, Option.some.injEq] at hj
-    subst hj
-    simpa [cleanGo] using h
-  | cons x t ih =>
-    cases x with
-    | ns n =>
-      simp only [cleanPos] at hj
-      simp only [cleanGo]
-      by_cases h1 : (n.pfx, n.uri) ∈ items
-      · simp only [h1, if_true] at hj ⊢
-        exact ih _ _ (by simpa using h) hj
-      · simp only [h1, if_false] at hj ⊢
-        by_cases h2 : delBlocked (done ++ Rule.ns n :: t) n.uri = true
-        · simp only [h2, if_true, Option.some.injEq] at hj ⊢
-          subst hj; exact h
-        · simp only [h2, Bool.false_eq_true, if_false] at hj ⊢
-          by_cases h3 : pos = done.length
-          · simp [h3] at hj
-          · simp only [h3, if_false] at hj
-            by_cases h4 : pos > done.length
-            · simp only [h4, if_true] at hj
-              apply ih _ _ _ hj
-              rw [List.getElem?_append_right (by omega)] at h ⊢
-              have : pos - done.length = (pos - 1 - done.length) + 1 := by omega
-              rw [this, List.getElem?_cons_succ] at h
-              exact h
-            · simp only [h4, if_false] at hj
-              apply ih _ _ _ hj
-              have hlt : pos < done.length := by omega
-              rw [List.getElem?_append_left hlt] at h ⊢
-              exact h
-    | style y => simp only [cleanPos] at hj; simp only [cleanGo]; exact ih _ _ (by simpa using h) hj
-    | media y => simp only [cleanPos] at hj; simp only [cleanGo]; exact ih _ _ (by simpa using h) hj
-    | other y => simp only [cleanPos] at hj; simp only [cleanGo]; exact ih _ _ (by simpa using h) hj
-
 theorem bodyRules_eraseIdx_ns {l : Sheet} {j : Nat} {n : NsRule} (h : l[j]? = some (.ns n)) :
     bodyRules (l.eraseIdx j) = bodyRules l := by
   obtain ⟨pre, post, rfl, rfl⟩ := split_at h
@@ -1224,12 +1183,6 @@ theorem body_insertNsAt (s : Sheet) (r : NsRule) (index : Nat) (clean : Bool) (h
       simp only [if_true, cleanNamespaces]
       by_cases h1 : (cleanGo (view (insertAt s index (Rule.ns r))) [] (insertAt s index (Rule.ns r))).snd = true
       · simp only [h1, if_true]
-        cases hp : cleanPos (view (insertAt s index (Rule.ns r))) [] (insertAt s index (Rule.ns r)) index with
-        | none => exact this
-        | some j =>
-          simp only
-          have hg := cleanPos_get _ [] _ index j (.ns r) (by simpa using insertAt_get s index (.ns r) hi) hp
-          rw [bodyRules_eraseIdx_ns hg]; exact this
       · simp only [h1, if_false]
         by_cases h2 : (r.pfx, r.uri) ∈ view (insertAt s index (Rule.ns r))
         · simp only [h2, if_true]; exact this
@@ -1338,11 +1291,10 @@ theorem body_delNs (s : Sheet) (p : Cps) : bodyRules (delNs s p).1 = bodyRules s
 /-! ## rejected calls -/
 
 theorem insertNs_err {s : Sheet} {r : NsRule} {idx : Option Nat} {io clean : Bool} {e : Err}
-    (h : (insertNs s r idx io clean).2 = .err e) :
-    e = .noModificationAllowedErr ∨ (insertNs s r idx io clean).1 = s := by
+    (h : (insertNs s r idx io clean).2 = .err e) : (insertNs s r idx io clean).1 = s := by
   unfold insertNs at h ⊢
   cases hp : nsPosition s idx io with
-  | error e' => right; rfl
+  | error e' => rfl
   | ok index =>
     simp only [hp] at h ⊢
     unfold insertNsAt at h ⊢
@@ -1354,33 +1306,26 @@ theorem insertNs_err {s : Sheet} {r : NsRule} {idx : Option Nat} {io clean : Boo
       | true =>
         simp only [if_true] at h ⊢
         by_cases hc : (cleanNamespaces (insertAt s index (Rule.ns r))).2 = true
-        · simp only [hc, if_true, Outcome.err.injEq] at h; exact Or.inl h.symm
+        · simp only [hc, if_true]
         · simp only [hc, if_false] at h
           by_cases hm : (r.pfx, r.uri) ∈ view (insertAt s index (Rule.ns r))
           · simp [hm] at h
           · simp [hm] at h
 
-theorem setNs_err {s : Sheet} {p u : Cps} {e : Err} (h : (setNs s p u).2 = .err e) :
-    (e = .noModificationAllowedErr ∧ findLastNs p s = none) ∨ (setNs s p u).1 = s := by
+theorem setNs_err {s : Sheet} {p u : Cps} {e : Err} (h : (setNs s p u).2 = .err e) : (setNs s p u).1 = s := by
   unfold setNs at h ⊢
   cases hf : findLastNs p s with
   | none =>
     simp only [hf] at h ⊢
     by_cases hu : u = []
-    · right; simp [hu]
+    · simp [hu]
     · simp only [hu, if_false] at h ⊢
       cases hr : (insertNs s (mkNs p u) none true true).2 with
       | ok r => simp [hr] at h
-      | err e' =>
-        simp only [hr, Outcome.err.injEq] at h
-        subst h
-        rcases insertNs_err hr with h1 | h1
-        · exact Or.inl ⟨h1, trivial⟩
-        · exact Or.inr h1
+      | err e' => exact insertNs_err hr
   | some x =>
     obtain ⟨i, n⟩ := x
     simp only [hf] at h ⊢
-    right
     split at h
     · rename_i h1; simp [h1]
     · split at h <;> simp at h
@@ -1410,11 +1355,10 @@ def OpOk (s : Sheet) : Op → Prop
   | .insStyleText _ _ _ => True
   | .insStyleObj sels _ _ => ∀ u ∈ selsUris sels, u ∈ nsUris s
 
-/-- a history all of whose steps are `OpOk` and in which no clean-up inside `insertRule` raised -/
+/-- a history all of whose steps are `OpOk` -/
 def AllOk : Sheet → List Op → Prop
   | _, [] => True
-  | s, op :: t => OpOk s op ∧ ((step s op).2 = .err .noModificationAllowedErr → (step s op).1 = s) ∧
-      AllOk (step s op).1 t
+  | s, op :: t => OpOk s op ∧ AllOk (step s op).1 t
 
 theorem good_insertStyle {s : Sheet} {x : List Sel} {idx : Option Nat} {io : Bool} (h : Good s)
     (hx : ∀ u ∈ selsUris x, u ∈ nsUris s) : Good (insertStyle s (.style x) idx io).1 := by
@@ -1694,10 +1638,7 @@ theorem allGood_insertNs {s : Sheet} {n : NsRule} (idx : Option Nat) (io clean :
           have := cleanGo_sub _ [] _ _ hm
           exact hins index m (by simpa using this)
         split
-        · simp only
-          split
-          · exact allGood_sub hc (fun r hr => (List.eraseIdx_sublist _ _).subset hr)
-          · exact hc
+        · exact h
         · split <;> exact hc
 
 theorem allGood_set {pre post : Sheet} {n m : NsRule} (h : AllGoodNs (pre ++ .ns n :: post)) (hm : m.good = true) :
@@ -2099,5 +2040,95 @@ theorem good_parseSheet (src : List SrcRule) (hsrc : ∀ r ∈ src, SrcOk r) (hc
     have hinv := parseFold_inv t (fun x hx => hsrc x (List.mem_cons_of_mem _ hx))
       (parseStep_inv PInv.init (hsrc r List.mem_cons_self))
     exact good_clean (nodup_of_nodup_map hinv.pfx) hinv.noStar hinv.decl hc
+
+
+/-! ## the final clean-up of `parse` does not raise -/
+
+theorem uniqByUri_sublist (l : List (Cps × Cps)) (seen : List Cps) : (uniqByUri l seen).Sublist l := by
+  induction l generalizing seen with
+  | nil => simp [uniqByUri]
+  | cons e t ih =>
+    simp only [uniqByUri]
+    split
+    · exact (ih seen).cons e
+    · exact (ih _).cons₂ e
+
+theorem viewOfPairs_of_pfx_nodup {l : List (Cps × Cps)} (hp : (l.map (·.1)).Nodup) :
+    viewOfPairs l = uniqByUri l.reverse [] := by
+  unfold viewOfPairs
+  rw [dictOf_eq, dictFold_append]
+  · simp
+  · simp only [Dict.keys, List.map_nil, List.nil_append]
+    have h1 : ((uniqByUri l.reverse []).map (·.1)).Sublist (l.reverse.map (·.1)) := (uniqByUri_sublist _ _).map _
+    apply h1.nodup
+    rw [List.map_reverse]
+    exact nodup_reverse.mpr hp
+
+/-- with one rule per prefix, a rule that is not in the view has a later rule for the same URI -/
+theorem not_mem_view_later {l pre post : List (Cps × Cps)} {e : Cps × Cps} (hp : (l.map (·.1)).Nodup)
+    (hl : l = pre ++ e :: post) (hn : e ∉ viewOfPairs l) : e.2 ∈ post.map (·.2) := by
+  by_cases h : e.2 ∈ post.map (·.2)
+  · exact h
+  · exfalso
+    apply hn
+    rw [viewOfPairs_of_pfx_nodup hp]
+    apply mem_uniqByUri_iff.mpr
+    refine ⟨post.reverse, pre.reverse, by simp [hl], ?_, by simp⟩
+    simpa using h
+
+theorem cleanGo_no_raise (items : Dict) (done rest : List Rule)
+    (h : ∀ pre n post, rest = pre ++ Rule.ns n :: post → (n.pfx, n.uri) ∉ items → n.uri ∈ nsUris post) :
+    (cleanGo items done rest).2 = false := by
+  induction rest generalizing done with
+  | nil => simp [cleanGo]
+  | cons r t ih =>
+    have ht : ∀ pre n post, t = pre ++ Rule.ns n :: post → (n.pfx, n.uri) ∉ items → n.uri ∈ nsUris post := by
+      intro pre n post e hn
+      exact h (r :: pre) n post (by simp [e]) hn
+    cases r with
+    | ns n =>
+      simp only [cleanGo]
+      by_cases h1 : (n.pfx, n.uri) ∈ items
+      · simp only [h1, if_true]; exact ih _ ht
+      · simp only [h1, if_false]
+        have hlater := h [] n t rfl h1
+        have hnb : delBlocked (done ++ Rule.ns n :: t) n.uri = false := by
+          have hc : (nsUris (done ++ Rule.ns n :: t)).count n.uri ≥ 2 := by
+            rw [nsUris_split_ns]
+            simp only [List.count_append, List.count_cons_self]
+            have := List.count_pos_iff.mpr hlater
+            omega
+          simp only [delBlocked, Bool.and_eq_false_iff]
+          right
+          simp only [beq_eq_false_iff_ne]
+          omega
+        simp only [hnb, Bool.false_eq_true, if_false]
+        exact ih _ ht
+    | style x => simp only [cleanGo]; exact ih _ ht
+    | media x => simp only [cleanGo]; exact ih _ ht
+    | other x => simp only [cleanGo]; exact ih _ ht
+
+theorem nsPairs_split {s pre post : Sheet} {n : NsRule} (h : s = pre ++ Rule.ns n :: post) :
+    nsPairs s = nsPairs pre ++ (n.pfx, n.uri) :: nsPairs post := by
+  rw [h, nsPairs_append, nsPairs_cons_ns]
+
+/-- one rule per prefix ⇒ `_cleanNamespaces` goes through: it only deletes rules that have a later rule for the
+same URI, and `deleteRule` lets those go -/
+theorem clean_no_raise {s : Sheet} (hp : ((nsPairs s).map (·.1)).Nodup) : (cleanNamespaces s).2 = false := by
+  apply cleanGo_no_raise
+  intro pre n post hs hn
+  have := not_mem_view_later (l := nsPairs s) (pre := nsPairs pre) (post := nsPairs post) (e := (n.pfx, n.uri)) hp
+    (nsPairs_split hs) hn
+  simpa [nsUris] using this
+
+theorem parse_no_raise (src : List SrcRule) (hsrc : ∀ r ∈ src, SrcOk r) : (parseSheet [] src).2 = false := by
+  unfold parseSheet
+  cases src with
+  | nil => simp only; exact clean_no_raise (by simp)
+  | cons r t =>
+    simp only
+    have hinv := parseFold_inv t (fun x hx => hsrc x (List.mem_cons_of_mem _ hx))
+      (parseStep_inv PInv.init (hsrc r List.mem_cons_self))
+    exact clean_no_raise hinv.pfx
 
 end CssVerif.Ns
